@@ -257,7 +257,6 @@ func runC18(c *Ctx) {
 	c.Min("C18-R3", 5)
 }
 
-
 type svcType struct {
 	t     types.Type
 	where string
